@@ -26,12 +26,12 @@ NROWS = 5
 ROWS = [{c: float(TABLE[c][i]) for c in COLUMNS} for i in range(NROWS)]
 
 _PARAMS = [
-    dict(b_z=0.5, B2=-0.75, b10=1.25, b_a=0.25, a_fix=2.0),
-    dict(b_z=-0.25, B2=0.5, b10=0.75, b_a=1.5, a_fix=0.5),
-    dict(b_z=1.25, B2=0.25, b10=-0.5, b_a=0.75, a_fix=1.5),
+    dict(b_z=0.5, B2=-0.75, b10=1.25, b_a=0.25, a_fix=2.0, Z_fix=-1.5),
+    dict(b_z=-0.25, B2=0.5, b10=0.75, b_a=1.5, a_fix=0.5, Z_fix=1.25),
+    dict(b_z=1.25, B2=0.25, b10=-0.5, b_a=0.75, a_fix=1.5, Z_fix=0.75),
 ]
 PARAMS = _PARAMS[(_SEED // 3) % len(_PARAMS)]
-FIXED = ('a_fix',)           # sorts before b10, b_a, b_z and after B2 (ASCII)
+FIXED = ('a_fix', 'Z_fix')   # a_fix sorts between B2 and b10; Z_fix sorts before a_fix but is met after it in the fillers
 FREE = [n for n in PARAMS if n not in FIXED]
 # second parameter point: a dictionary naming only some parameters
 PARTIAL = {'b_z': 1.5, 'B2': 0.25} if _SEED % 2 == 0 else {'b10': -0.25, 'b_a': 0.5}
@@ -50,7 +50,7 @@ def betas_spec():
 
 # ------------------------------------------------------------------ fillers by slot type
 FILL = {
-    'any': [('var', 'x1'), ('beta', 'b_z'), ('num', 2.0), ('var', 'x2'), ('beta', 'B2'), ('beta', 'a_fix'),
+    'any': [('var', 'x1'), ('beta', 'b_z'), ('num', 2.0), ('beta', 'a_fix'), ('beta', 'Z_fix'), ('var', 'x2'), ('beta', 'B2'),
             ('num', 0.5), ('beta', 'b10'), ('beta', 'b_a')],
     'pos': [('var', 'x1'), ('num', 2.0), ('beta', 'a_fix'), ('+', ('var', 'x1'), ('num', 1.0)), ('num', 0.5)],
     'small': [('var', 'x2'), ('beta', 'B2'), ('num', 0.5), ('beta', 'b_z'), ('var', 'x1')],
@@ -130,7 +130,7 @@ LEAF_KINDS = {
     'beta_free': lambda r: ('beta', 'b10'),
     'beta_fixed': lambda r: ('beta', 'a_fix'),
     'var': lambda r: ('var', 'x2'),
-    'linutil': lambda r: ('linutil', (('b_z', 'x1'), ('B2', 'x2'), ('a_fix', 'x1'))),
+    'linutil': lambda r: ('linutil', (('b_z', 'x1'), ('a_fix', 'x2'), ('B2', 'x2'), ('Z_fix', 'x1'))),
 }
 SLOT_NAMES = {
     'elem': ['key', 'entry-1', 'entry0', 'entry2', 'entry1', 'entry3'],
@@ -189,8 +189,8 @@ def triple_term(p, s, q, rotation):
 
 # ------------------------------------------------------------------ all small trees
 UNARY = ['neg', 'exp', 'log', 'sin', 'cos', 'ncdf', 'powc2', 'logzero']
-BINARY = ['+', '-', '*', '/', '**', 'min', 'max', '<=', '==', 'and', 'or', '>']
-LEAF5 = [('var', 'x1'), ('beta', 'b_z'), ('num', 2.0), ('var', 'x2'), ('beta', 'a_fix')]
+BINARY = ['+', '-', '*', '/', '**', 'min', 'max', '<=', '==', 'and']
+LEAF5 = [('var', 'x1'), ('beta', 'b_z'), ('num', 2.0), ('var', 'x2'), ('beta', 'a_fix'), ('beta', 'Z_fix')]
 
 
 def trees(depth):
